@@ -24,6 +24,11 @@ Meaning of the Rust constructs (the combinators are in lean/KestrelModel/RsPrelu
   for                   -> Rs.forRange / Rs.forStep / Rs.forEnum / Rs.forIn over the tuple of outer variables the body assigns;
                            `for (m, x) in s.iter_mut().zip(t)` / `s.chunks_exact_mut(k).zip(t)` (t = `&u`, `u.iter()`,
                            `u.chunks_exact(k)`; the body changes `*m` / the chunk `m` only) -> s := Rs.zipMut s t f / Rs.zipChunksMut k s t f
+                           `for c in s.chunks_exact_mut(k)` (the body changes the chunk `c` and outer variables other than `s`)
+                           -> (s, state) := Rs.forChunksMut k s (fun c state => …; (c, state)) state
+  let (a, b) = s.split_at(k)      -> a := s.take k, b := s.drop k          (Rust panics when k > s.len(); totalised)
+  let (a, b) = s.split_at_mut(k)  -> the same, `a` and `b` being `&mut` slices; `s` (an owned local of the function) may not be
+                                     mentioned again (its contents would be a ++ b: no write-back is generated, later uses are refused)
   const NAME: usize = e -> `@[simp] def NAME : Nat := e` (proofs see through it: KestrelProofs/RsUnfold.lean)
   assert!/debug_assert! -> not part of the function body; collected into `def <fn>_pre … : Prop`
   .unwrap(), .try_into(), & and &mut on values, `as`/`from` between usize and u64 -> identity
@@ -292,6 +297,22 @@ class Parser:
             tok = self.peek()
             if self.at('let'):
                 self.next()
+                if self.at('('):
+                    # `let (a, b) = e;` (plain names only; what `e` may be is decided by the translator)
+                    self.next()
+                    names = []
+                    while not self.accept(')'):
+                        if self.at('mut') or self.at('ref') or self.at('&'): raise Unsupported('`&`/`mut`/`ref` in a `let` pattern', tok.line)
+                        names.append(self.ident().text)
+                        if self.at('(') or self.at('{') or self.at('::'): raise Unsupported('nested pattern in `let`', tok.line)
+                        if not self.at(')'): self.expect(',')
+                    if self.at(':'): raise Unsupported('type annotation on a tuple `let`', tok.line)
+                    if not self.accept('='): raise Unsupported('`let` without initialiser', tok.line)
+                    init = self.parse_expr()
+                    if self.at('else'): raise Unsupported('`let … else`', tok.line)
+                    self.expect(';')
+                    stmts.append(Node('lettuple', tok.line, names=names, init=init))
+                    continue
                 mut = bool(self.accept('mut'))
                 name = self.ident()
                 if self.at('(') or self.at('{') or self.at('::'): raise Unsupported('pattern in `let`', tok.line)
@@ -535,7 +556,11 @@ class FnTranslator:
     # ---- environment: list of scopes (dict name -> Var)
     def lookup(self, name, line):
         for sc in reversed(self.scopes):
-            if name in sc: return sc[name]
+            if name in sc:
+                v = sc[name]
+                if getattr(v, 'split', None):
+                    self.bad(f'`{name}` mentioned after `{name}.split_at_mut(..)` (its halves `{v.split[0]}`, `{v.split[1]}` are not written back)', line)
+                return v
         self.bad(f'unknown variable `{name}`', line)
 
     def declare(self, name, ty, mutable, kind, line):
@@ -850,9 +875,12 @@ class FnTranslator:
             local.append(set(local[-1]))
             for s in block.stmts:
                 if s.kind == 'let': local[-1].add(s.name)
+                elif s.kind == 'lettuple': local[-1].update(s.names)
                 elif s.kind == 'for':
                     m = self.zip_parts(s.iter)
                     if m is not None: note(place_var(m[0].recv), s.line)
+                    cm = self.chunks_mut_part(s.iter)
+                    if cm is not None: note(place_var(cm.recv), s.line)
                     local.append(set(local[-1]) | {n for n in s.pat if n != '_'})
                     scan(s.body)
                     local.pop()
@@ -877,6 +905,8 @@ class FnTranslator:
             if s.name == '_': self.bad('`let _`', s.line)
             self.emit(f'let {lname(v.name)}{asc} := {r[0]}')
             return
+        if s.kind == 'lettuple':
+            return self.lettuple_stmt(s)
         if s.kind == 'for':
             return self.for_stmt(s)
         e = s.e
@@ -888,6 +918,38 @@ class FnTranslator:
         if e.kind == 'assign':
             return self.assign_stmt(e)
         return self.call_stmt(e, top=True)
+
+    def lettuple_stmt(self, s):
+        """`let (a, b) = X.split_at(k);` / `let (a, b) = X.split_at_mut(k);`"""
+        e = s.init
+        while e.kind == 'paren': e = e.e
+        if not (e.kind == 'mcall' and e.name in ('split_at', 'split_at_mut') and len(e.args) == 1):
+            self.bad('tuple `let` of something other than `s.split_at(k)` / `s.split_at_mut(k)`', s.line)
+        if len(s.names) != 2 or '_' in s.names or s.names[0] == s.names[1]:
+            self.bad(f'`.{e.name}` needs a pattern `(a, b)` of two different names', s.line)
+        k = self.expr(e.args[0]); self.unify(k[1], 'usize', s.line, 'split point')
+        if e.name == 'split_at':
+            base = self.expr(e.recv)
+            if not is_list(base[1]): self.bad('`.split_at` on a non-slice', s.line)
+            elem, src, kind, mutable = resolve(base[1])[1], self.paren(base), 'local', False
+        else:
+            recv = e.recv
+            while recv.kind == 'paren': recv = recv.e
+            if not (recv.kind == 'path' and len(recv.path) == 1): self.bad('`.split_at_mut` on something other than a variable', s.line)
+            xv = self.lookup(recv.path[0], recv.line)
+            if not is_list(xv.ty): self.bad('`.split_at_mut` on a non-slice', s.line)
+            # the halves alias `xv`; no write-back is generated, so `xv` must be a local whose value nobody collects (not a
+            # `&mut` parameter, not a variable of an enclosing loop state) and it may not be mentioned again
+            if xv.kind != 'local' or not xv.mutable or self.depth_loops or xv.name not in self.scopes[-1] or self.scopes[-1][xv.name] is not xv:
+                self.bad(f'`.split_at_mut` on `{xv.name}`, which is not a `let mut` local of the same block of the function body', s.line)
+            if xv.name in s.names: self.bad('a half of `.split_at_mut` named like the slice', s.line)
+            elem, src, kind, mutable = resolve(xv.ty)[1], lname(xv.name), 'mutref', True
+        ty = ('list', elem, 'mutref' if mutable else 'ref')
+        a = self.declare(s.names[0], ty, mutable, kind, s.line)
+        b = self.declare(s.names[1], ty, mutable, kind, s.line)
+        self.emit(f'let {lname(a.name)} : {lean_type(ty)} := {src}.take {self.paren(k)}')
+        self.emit(f'let {lname(b.name)} : {lean_type(ty)} := {src}.drop {self.paren(k)}')
+        if e.name == 'split_at_mut': xv.split = (a.name, b.name)
 
     def assign_stmt(self, e):
         p = e.place
@@ -995,6 +1057,42 @@ class FnTranslator:
                 return left, it.args[0]
         return None
 
+    def chunks_mut_part(self, it):
+        """the `X.chunks_exact_mut(k)` node when `it` is just that, else None"""
+        while it.kind == 'paren': it = it.e
+        if it.kind == 'mcall' and it.name == 'chunks_exact_mut' and len(it.args) == 1: return it
+        return None
+
+    def chunks_mut_stmt(self, s, cm):
+        """`for c in X.chunks_exact_mut(k) { … }`: the body may change the chunk `c` and outer variables other than X:
+        (X, state) := Rs.forChunksMut k X (fun c state => …; (c, state)) state"""
+        if len(s.pat) != 1 or s.pat[0] == '_': self.bad('`.chunks_exact_mut(..)` needs a plain loop variable', s.line)
+        v, read, wb, ty, sub = self.place(Node('ref', cm.line, mut=True, e=cm.recv), 'receiver of `.chunks_exact_mut`')
+        if not is_list(ty): self.bad('`.chunks_exact_mut` on a non-slice', s.line)
+        elem = resolve(ty)[1]
+        k = self.expr(cm.args[0]); self.unify(k[1], 'usize', s.line, 'chunk size')
+        c = s.pat[0]
+        state = self.assigned_outer(s.body, [{c}])
+        if v in state: self.bad(f'`.chunks_exact_mut` loop whose body touches the chunked slice `{v.name}`', s.line)
+        st = self.state_text(state) if state else '()'
+        stb = st if state else '(_ : Unit)'
+        rd = read if not sub else f'({read})'
+        name = lname(v.name) + ("'" if sub else '')
+        res = f'({name}, {st})' if state else f'({name}, _)'
+        self.emit(f'let {res} := Rs.forChunksMut {self.paren(k)} {rd} (fun {lname(c)} {stb} =>')
+        self.scopes.append({})
+        cv = self.declare(c, ('list', elem, 'mutref'), True, 'mutref', s.line)
+        self.tracked.append((len(self.scopes) - 1, [cv] + state))
+        self.depth += 1; self.depth_loops += 1
+        self.block_body(s.body)
+        if s.body.tail is not None: self.bad('loop body ending in an expression', s.body.tail.line)
+        if self.lookup_opt(c) is not cv: self.bad(f'`{c}` is shadowed at the end of the loop body', s.line)
+        self.emit(f'({lname(c)}, {st})) {st}')
+        self.depth -= 1; self.depth_loops -= 1
+        self.tracked.pop()
+        self.scopes.pop()
+        if sub: self.emit(f'let {lname(v.name)} := {wb(name)}')
+
     def zip_stmt(self, s, left, right):
         """`for (m, x) in X.iter_mut().zip(Y) { … }` / `for (m, x) in X.chunks_exact_mut(k).zip(Y) { … }` where the body
         changes nothing but `*m` / the chunk `m`:  X := Rs.zipMut X Y (fun m x => …; m)  /  Rs.zipChunksMut k X Y (fun m x => …; m)"""
@@ -1047,6 +1145,8 @@ class FnTranslator:
         while it.kind == 'paren': it = it.e
         zp = self.zip_parts(it)
         if zp is not None: return self.zip_stmt(s, zp[0], zp[1])
+        cm = self.chunks_mut_part(it)
+        if cm is not None: return self.chunks_mut_stmt(s, cm)
         pat = s.pat
         binders = []  # (name, type)
         if it.kind == 'mcall' and it.name == 'step_by' and len(it.args) == 1:
@@ -1085,7 +1185,7 @@ class FnTranslator:
             binders = [(pat[0], resolve(l[1])[1])]
         else:
             self.bad('`for` over an iterator other than a..b, (a..b).step_by(k), s.iter(), s.iter().enumerate(), &s, '
-                     's.iter_mut().zip(t), s.chunks_exact_mut(k).zip(t)', s.line)
+                     's.iter_mut().zip(t), s.chunks_exact_mut(k).zip(t), s.chunks_exact_mut(k)', s.line)
 
         state = self.assigned_outer(s.body, [{n for n in pat if n != '_'}])
         if not state: self.bad('`for` loop that assigns no outer variable', s.line)
@@ -1171,7 +1271,7 @@ def free_vars(e):
             for k, v in x.__dict__.items():
                 if k in ('kind', 'line', 'tv'): continue
                 go(v)
-        elif isinstance(x, list):
+        elif isinstance(x, (list, tuple)):
             for y in x: go(y)
     go(e)
     return out
